@@ -222,3 +222,52 @@ Section HpackSync.
     - destruct (codec_sync e d ls Hs) as [Hd Hs']. rewrite Hd. f_equal. apply IH. exact Hs'.
   Qed.
 End HpackSync.
+
+(* ---------- the route does not change the authority ---------- *)
+(* Client.roundTrip fills Request.Host (override or URL host), so whatever endpoint the Alt-Svc
+   rewrite puts into URL.Host, the writers name the same authority *)
+Theorem authority_route_independent : forall override url_host alt, url_host <> [] ->
+  writer_authority (req_host_field override url_host) alt =
+  writer_authority (req_host_field override url_host) url_host.
+Proof.
+  intros o u alt Hu. unfold req_host_field, writer_authority.
+  destruct o as [|c o]; cbn [is_nil]; [|reflexivity]. destruct u; [congruence|reflexivity].
+Qed.
+
+(* with Request.Host left empty the alternative endpoint would become the authority *)
+Theorem authority_empty_host_follows_route : forall url_host alt,
+  writer_authority [] alt = alt /\ (alt <> url_host -> writer_authority [] alt <> writer_authority [] url_host).
+Proof. intros. split; [reflexivity|]. cbn. auto. Qed.
+
+(* ---------- the body of every send is the last thing that was set ---------- *)
+Section BodySends.
+  Context {V : Type} (marshal : V -> bytes).
+
+  Definition st_meaning (st : bstate (V := V)) : bytes :=
+    match b_value st with Some v => marshal v | None => b_bytes st end.
+
+  Theorem every_send_carries_the_last_set_body : forall ops st,
+    body_run marshal st ops = described_bodies marshal (st_meaning st) ops.
+  Proof.
+    induction ops as [|op r IH]; intros st; [reflexivity|].
+    destruct op as [v|b|]; cbn [body_run body_step described_bodies].
+    - rewrite IH. reflexivity.
+    - rewrite IH. reflexivity.
+    - unfold st_meaning at 1 2. destruct (b_value st) as [v|] eqn:E.
+      + rewrite IH. unfold st_meaning. cbn [b_value]. reflexivity.
+      + rewrite IH. unfold st_meaning. rewrite E. reflexivity.
+  Qed.
+End BodySends.
+
+(* marshalling a value only while the request holds no bytes sends a stale body after the value changed *)
+Theorem cached_marshalling_sends_stale_body :
+  exists ops : list (body_op (V := bytes)),
+    (let fix run st ops := match ops with
+                           | [] => []
+                           | op :: r => let '(st', out) := body_step_cached (fun v => v) st op in
+                                        match out with Some b => b :: run st' r | None => run st' r end
+                           end in run (mkBs None []) ops)
+    <> described_bodies (fun v => v) [] ops.
+Proof.
+  exists [SetValue (bs "one"); SendNow; SetValue (bs "two"); SendNow]. vm_compute. discriminate.
+Qed.
